@@ -23,8 +23,12 @@ tabs=load_tables(); tabs.pop('sink_keys',None)
 ctx=Ctx(extract.extract('/repo','cfb'), tabs)
 cl=rules_sink.Classifier(ctx)
 sk={}
+pn={}
 for p_,f in ctx.fx.fns.items():
     for s_ in rules_sink.enumerate_sinks(f):
+        if s_['kind'].startswith('Panic:'):
+            sg=cl.panic_signature(f,s_)
+            if sg not in pn.setdefault(p_,[]): pn[p_].append(sg)
         desc,atoms,auto=cl.classify(f,s_)
         if auto: continue
         e=cl.audited(f,s_['kind'],desc,atoms)
@@ -38,6 +42,6 @@ except Exception: pass
 for p_,ks in old.items():
     for k_ in ks:
         if k_ not in sk.setdefault(p_,[]): sk[p_].append(k_)
-json.dump({'_reason':'for every function with audited sink entries: the sinks (kind | operator skeleton) those entries were written for, on the reference trees; a site outside this set is not covered by the old audit','functions':sk},open('/verif/rules/sink_keys.json','w'),indent=0)
+json.dump({'_reason':'for every function with audited sink entries: the sinks (kind | operator skeleton) those entries were written for, on the reference trees; a site outside this set is not covered by the old audit','functions':sk,'panics':pn},open('/verif/rules/sink_keys.json','w'),indent=0)
 print('reference', h[:16], len(k['functions']), 'audited sink keys', sum(len(v) for v in sk.values()))
 PY
